@@ -63,6 +63,7 @@ func runC10R2(c *Ctx) {
 	checkMirrorAfterDisk(c, "C10-R2", addrMgrMirrors)
 	checkWatchOnlyFlag(c, "C10-R2")
 	checkPassphraseChange(c, "C10-R2")
+	checkAddrCacheAfterLastWrite(c, "C10-R2")
 	// R3: an operation that swaps in-memory keys eagerly (Manager.ChangePassphrase) must be the last fallible step of
 	// its enclosing database transaction: otherwise a later failure rolls the database back while memory keeps the swap.
 	cp := c.P.Func("waddrmgr", "Manager", "ChangePassphrase")
